@@ -111,7 +111,7 @@ func fsState(path string, expected []byte) string {
 	if expected != nil && bytes.Equal(b, expected) {
 		return "new"
 	}
-	return "other"
+	return "other:" + Hash(b)
 }
 
 func runOutputCase(tw *TraceWriter, id int, p OutParams, variant int, scratch string) {
@@ -230,6 +230,15 @@ func runOutputCase(tw *TraceWriter, id int, p OutParams, variant int, scratch st
 		target = filepath.Join(dir, "out.go")
 		os.WriteFile(target, []byte("OLD CONTENT\n"), 0644)
 		before = "old"
+	case "nearsame":
+		// the target already holds the output except for white space at its end
+		target = filepath.Join(dir, "out.go")
+		near := append(bytes.TrimRight(append([]byte{}, expected...), "\n"), []byte("\n\n \n")...)
+		if variant%2 == 1 {
+			near = bytes.TrimRight(append([]byte{}, expected...), "\n")
+		}
+		os.WriteFile(target, near, 0644)
+		before = fsState(target, nil)
 	case "isdir":
 		target = filepath.Join(dir, "out.go")
 		os.Mkdir(target, 0755)
